@@ -273,6 +273,7 @@ pub fn dispatch(campaign: &str, c: &mut Choices, log: &mut CaseLog) -> Option<Ca
     match campaign {
         "decode" => Some(case_decode(c, log)),
         "exhaustive" => Some(case_exhaustive(c, log)),
+        "fuzz_datum_c06" => Some(crate::fuzzglue::case_datum_c06(c, log)),
         _ => None,
     }
 }
@@ -291,7 +292,7 @@ pub fn case_exhaustive(c: &mut Choices, log: &mut CaseLog) -> CaseResult {
     // is the input a strict prefix of some valid datum? decide with the reference decoder:
     // Eof from the strict reference decoder on bytes that are valid so far means "prefix of something";
     // that alone does not make Ok wrong only if the reference also says complete; so: kind = Prefix iff reference says Eof.
-    let kind = match refbin::decode(&sub.node, &sub.env, &input) {
+    let kind = match refbin::decode_any_sizes(&sub.node, &sub.env, &input) {
         Err(refbin::DecErr::Eof) => Kind::Prefix,
         _ => Kind::Random,
     };
@@ -336,7 +337,8 @@ pub fn run(mut chk: Check) -> ! {
         }
         chk.explicit("exhaustive", &inputs, case_exhaustive);
     }
-    let n = chk.scale(10_000, 600_000);
+    let n = chk.scale(80_000, 800_000);
     chk.campaign(CampaignCfg::new("decode", n), case_decode);
+    chk.fuzz_stage("c06_datum", "fuzz_datum_c06", 3_000_000, 512, &crate::fuzzglue::seeds_datum(), crate::fuzzglue::case_datum_c06);
     chk.finish()
 }
